@@ -215,8 +215,13 @@ class Arrow:
         if isinstance(key, slice):
             if key.step == -1:
                 boxes = [box[::-1] for box in self.boxes[key]]
-                return self.upgrade(
-                    Arrow(self.cod, self.dom, boxes, _scan=False))
+                if boxes:
+                    dom, cod = boxes[0].dom, boxes[-1].cod
+                else:  # empty reversed slice: identity where it starts.
+                    start = key.indices(len(self))[0]
+                    dom = cod = self.dom if start < 0\
+                        else self.boxes[start].cod
+                return self.upgrade(Arrow(dom, cod, boxes, _scan=False))
             if (key.step or 1) != 1:
                 raise IndexError
             boxes = self.boxes[key]
